@@ -618,7 +618,21 @@ pub fn gen_fair(r: &mut Rng, sid: String, transitions: bool) -> Scenario {
     let mut conns: Vec<ConnScript> = Vec::new();
     for c in 0..n {
         let calls: Vec<Kind> = if c < nflood {
-            (0..r.range(3, 8)).map(|_| if transitions && r.chance(1, 6) { Kind::Stream(r.below(3) as u32, true) } else { Kind::Plain(0) }).collect()
+            (0..r.range(3, 8))
+                .map(|_| {
+                    if transitions && r.chance(1, 6) {
+                        Kind::Stream(r.below(3) as u32, true)
+                    } else {
+                        // a flood may consist of any kind of call (answered, failing, oneway)
+                        match r.below(6) {
+                            0 => Kind::Oneway,
+                            1 => Kind::Error,
+                            2 => Kind::OnewayErr,
+                            _ => Kind::Plain(0),
+                        }
+                    }
+                })
+                .collect()
         } else {
             (0..r.range(1, 2)).map(|_| Kind::Plain(r.range(0, 10))).collect()
         };
